@@ -102,6 +102,8 @@ def build(shape_key, edges, kg, spelling, pin, shared, mode, L=60):
                 t["start"] = "2025-01-07-09:00"
             if pin == "leaf" and fid == leaves[0]:
                 t["start"] = "2025-01-07-10:00"
+            if pin == "cend" and kids and fid == next(f for f, _p, c in nl if c):
+                t["end"] = "2025-01-17-17:00"   # a deadline on an enclosing container (backward projects)
             if mode == "alap-end" and not kids:
                 # a sink: nothing depends on it or on any of its ancestors
                 anc = [fid] + [a for a in _anc(parent, fid)]
@@ -134,12 +136,14 @@ def universe(tier):
                         continue
                     if not edges and spelling != "rel":
                         continue
-                    for pin in (None, "container", "leaf"):
-                        if pin == "container" and sk == "S1":
+                    for pin in (None, "container", "leaf", "cend"):
+                        if pin in ("container", "cend") and sk == "S1":
                             continue
                         for shared in ((True,) if tier == "quick" else (True, False)):
                             for mode in ("asap", "alap", "alap-end"):
-                                if mode != "asap" and (kg[0] == "start" or pin):
+                                if mode != "asap" and (kg[0] == "start" or pin in ("container", "leaf")):
+                                    continue
+                                if pin == "cend" and mode == "asap":
                                     continue
                                 yield {"sk": sk, "edges": edges, "kg": kg, "sp": spelling, "pin": pin, "shared": shared, "mode": mode}
 
@@ -193,7 +197,7 @@ def run(ctx):
     cov = st.coverage(
         "product universe: 5 tree shapes (<= 4 leaves, <= 2 container levels) x every set of <= 2 (thorough: <= 3) "
         "edges between unrelated nodes in either declaration direction that RefDeps finds acyclic x (kind, gap) x spelling (relative / "
-        "absolute / precedes) x pin (none / dated container / dated leaf) x resources x {ASAP, ALAP, ALAP with explicit sink ends}; "
+        "absolute / precedes) x pin (none / dated container / dated leaf; backward projects: deadline on the first container) x resources x {ASAP, ALAP, ALAP with explicit sink ends}; "
         "states = distinct schedule observations; transitions = placements + bookings; non-trivial = some checked edge is tight "
         "(dependent starts within one slot of its bound)")
     return ctx.finish(cov, ASSUME)
